@@ -199,13 +199,16 @@ def run(ctx):
 
 
 def judge(ctx, recs, pid, module='TraceXml', clauses_ignored=()):
-    tf = os.path.join(ctx.work, 'xml_traces.ndjson')
-    with open(tf, 'w') as f:
-        for r in recs:
-            o = {k: v for k, v in r['obs'].items() if k in ('req', 'resp', 'args', 'ncalls', 'client', 'zeep', 'zeepargs', 'inh')}
-            f.write(json.dumps({'c': r['c'], 'fam': r['fam'], 'obs': o}) + '\n')
-    cfgt = pc.write_cfg(os.path.join(ctx.work, 'tracexml.cfg'), ['INIT Init', 'NEXT Next', 'CONSTRAINT Report', 'CHECK_DEADLOCK FALSE'])
-    rt = tlc.run(module, cfgt, ctx.work, env={'TRACE_FILE': tf}, timeout=3000)
+    lines = []
+    for r in recs:
+        o = {k: v for k, v in r['obs'].items() if k in ('req', 'resp', 'args', 'ncalls', 'client', 'zeep', 'zeepargs', 'inh')}
+        lines.append({'c': r['c'], 'fam': r['fam'], 'obs': o})
+    res = tlc.validate_records(module, ['INIT Init', 'NEXT Next', 'CONSTRAINT Report', 'CHECK_DEADLOCK FALSE'], ctx.work, lines, tag='xml')
+
+    class _P(object):
+        prints = [('V', k + 1) + tuple(v) for k, v in sorted(res.items())]
+        stdout = ''
+    rt = _P()
     seen = set()
     nfail = 0
     for p in rt.prints:
